@@ -8,6 +8,7 @@ class Facts:
         self.config = d["config"]
         self.types = d["types"]
         self.adts = {a["path"]: a for a in d["adts"]}
+        self.adts_c = {a["cpath"]: a for a in d["adts"]}
         self.impls = d["impls"]
         self.bodies = [Body(self, b) for b in d["bodies"]]
         self.by_def = {}
